@@ -5,6 +5,10 @@ ROOT = os.path.dirname(os.path.dirname(os.path.abspath(__file__)))
 
 # id -> (technique, level text, level note, design ref)
 CHECKS = {
+ "C06": ("crash-isolated robustness search: generated token soup (default and generated delimiter sets), token-level mutation/splicing and exhaustive prefix truncation of the repository's snapshot inputs, generated template names, and an enumeration of deep/flat/chain shapes each in its own process on an 8 MiB stack; the oracle is returns-Ok-or-Err (error must format), observed from a supervisor that pinpoints any worker death by re-running the shard in trace mode",
+         "Exploration: 2.5M generated inputs per quick run (x20 thorough) of which >85% contain a start delimiter and reach the parser, 38k prefixes (exhaustive over 248 seed files), 30 nesting forms x 10 depths up to 100000, 19 flat shapes up to 100000 elements, 12 chain forms up to 100000 links.",
+         "Trusted base: the process supervisor (signals/timeouts) in harness/src/core.rs. Reference environment: optimised build, 8 MiB stack for the deep family; timeouts are inconclusive. Known findings: 11 chain forms overflow the stack, the unknown-reference report is quadratic (probed at 3000 occurrences, larger shapes excluded).",
+         "DESIGN.md section 4 C06"),
  "C08": ("model-based: sources are spelled from generated segment trees and compared with reference whitespace semantics on the segment list (exact output); metamorphic re-spelling of the same tree with a different accepted delimiter set; identity on sources without a start delimiter",
          "Exploration: 400k segment trees under the default delimiters, 200k under generated accepted delimiter sets (ASCII pairs and two-byte characters, ends possibly equal to each other or to a start), 200k plain texts (quick; x20 thorough); text heavy in ASCII/Unicode whitespace, lone delimiter characters, end delimiters and characters sharing a lead or continuation byte with a two-byte delimiter; an independent `-` on every side of expressions, comments, raw tags (four positions), set tags and if/for/filter/set-block pairs.",
          "Trusted base: the 60-line reference semantics in harness/src/props/c08.rs. Sources where a join accidentally forms a start delimiter or a comment/raw body contains its terminator early are excluded by construction and counted; whitespace means Unicode White_Space.",
